@@ -344,7 +344,12 @@ def main(argv=None):
           f"obligations={n_obl} discharged={n_dis} bounded={n_bounded_obl} refuted={sum(1 for x in agg.values() if x['verdict']=='refuted')} "
           f"unknown={sum(1 for x in agg.values() if x['verdict']=='unknown')} undecided_functions={len([r for r in reports if r['status']=='undecided'])} "
           f"stand-ins={len(bounded.get('checks', []))} known_findings={len(live)} wall={wall:.1f}s exit={exit_code}")
+    dead = [d for rep in reports for d in rep.get("dead_antecedents", [])]
+    if dead:
+        print(f"  note: {len(dead)} implication(s) in post clauses whose antecedent is unreachable on every path (vacuous there; listed with -v and in the evidence file)")
     if a.v:
+        for d in dead:
+            print("   dead antecedent:", d)
         for rep in reports:
             print(f"  {rep['status']:9s} {rep['target']} paths={rep['paths']} obl={len(rep['obligations'])} {rep['wall_s']}s {rep['reason'][:300]}")
         for name, ag in sorted(agg.items()):
@@ -416,6 +421,10 @@ def write_evidence(prop, tier, seed, mod, reg, reports, agg, bounded, live, find
         "bounded_stand_ins": bounded.get("checks", []),
         "known_findings_reproduced": [{"id": f["id"], "what": f["what"], "obligation": f.get("obligation"), "region_excluded_from_obligation": f.get("region")} for f in live],
         "fixed_findings": [{"id": f["id"], "commit": f.get("commit"), "what": f["what"]} for f in findings if f.get("status") == "fixed"],
+        "vacuity_guard": {"implication_antecedents_reached_on_some_path": sum(r.get("implications_covered", 0) for r in reports),
+                          "implication_antecedents_dead_on_every_path": [d for r in reports for d in r.get("dead_antecedents", [])],
+                          "note": "every function must complete at least one path (else checker error); an obligation missing relative to obligations_baseline.json is a checker error; "
+                                  "dead antecedents are implications of post clauses that are vacuous on this tree (reported, not counted as proof of their consequent)"},
         "undecided": undecided,
         "checker_errors": crashes,
         "samples": samples,
